@@ -99,7 +99,7 @@ def look_params(vals):
         return None
     a = cross(d, up)
     aa = dot(a, a)
-    if aa * 100 < dd * uu * 9:          # sin(angle(front, up)) >= 0.3
+    if aa * 10000 < dd * uu * 9:        # sin(angle(front, up)) >= 0.03 (1.7 degrees); below that the frame is numerically undetermined
         return None
     rf = inv_sqrt(dd)
     cr = cross([rf * x for x in d], up)
@@ -148,6 +148,13 @@ def tol_tf(kind, vals):
             nu = [i for i in range(3) if up[i] != 0]
             if len(nz) == 1 and len(nu) == 1 and nz != nu and abs(up[nu[0]]) == 1 and d[nz[0]].denominator == 1:
                 return F(0)              # axis-aligned: every step of the constructor is exact in float32
+            # the side vector is cross(front, up) normalised: its rounding error grows with 1/sin(angle(front, up))
+            a = cross(d, up)
+            aa, dd, uu = dot(a, a), dot(d, d), dot(up, up)
+            m = 1
+            while aa * 100 * m * m < dd * uu * 9 and m < 64:
+                m += 1
+            return F(8 * m * m)
         return F(8)
     return F(0)
 
@@ -227,6 +234,15 @@ def gen_vals(rng, kind, mode):
                 interest = [gen_val(rng, mode) for _ in range(3)]
                 up = rng.choice([[0.0, 1.0, 0.0], [0.0, 0.0, 1.0], [0.0, 2.0, 0.0],
                                  [gen_val(rng, mode) for _ in range(3)], gen_axis(rng)])
+                if rng.random() < 0.25:
+                    # an up vector a few degrees off the viewing direction (towards or away from the interest point): valid, just not comfortable
+                    d = [a - b for a, b in zip(eye, interest)]
+                    n = math.sqrt(sum(x * x for x in d))
+                    if n > 0.1:
+                        side = gen_axis(rng)
+                        t = math.radians(rng.choice([3, 4, 5, 6, 7, 9, 12]))
+                        sgn = rng.choice([1, -1])
+                        up = [f32(sgn * math.cos(t) * d[i] / n + math.sin(t) * side[i]) for i in range(3)]
             vals = eye + interest + up
             if look_params(vals) is not None:
                 return vals
